@@ -2,13 +2,13 @@
 # Mutation scan: for simple mutants (delete a call statement, negate an if condition, delete a field assignment) of the
 # anchored source files, record which properties' checks report a violation. Survivors in property-relevant code point at
 # missing rules. Scratch copies live under /var/tmp/mutscan (removed at the end unless KEEP=1).
-# usage: scripts/mutscan.sh <workers> <outfile> <files...>
+# usage: scripts/mutrescan.sh <workers> <outfile> <mutants.jsonl>   (re-runs a prepared list of mutants, e.g. the survivors of an earlier scan, with the current checker; MUTSCAN_ROOT selects the scratch directory)
 set -u
 export GOFLAGS=-mod=mod GOPROXY=off GOSUMDB=off GOTOOLCHAIN=local; unset GOWORK
 W=$1; OUT=$2; shift 2
-ROOT=/var/tmp/mutscan; mkdir -p $ROOT
+ROOT=${MUTSCAN_ROOT:-/var/tmp/mutrescan}; mkdir -p $ROOT
 cp /verif/bin/nrilint $ROOT/nrilint-frozen   # the checker must not change under the scan
-(cd /repo && /verif/bin/mutscan ${MUTSCAN_FLAGS:-} "$@") > $ROOT/muts.jsonl
+cp "$1" $ROOT/muts.jsonl
 N=$(wc -l < $ROOT/muts.jsonl); echo "$N mutants, $W workers"
 : > "$OUT"
 for w in $(seq 0 $((W-1))); do
